@@ -168,6 +168,31 @@ func Run(r *core.Run) {
 	})
 	r.Sample(map[string]any{"kind": "pair", "value": vs[40].text, "hashed_value": vs[41].text, "equal": jcs.Equal(vs[40].parsed, vs[41].parsed), "hash": hashes[41][0]})
 
+	// (ii-b) a Go string handed over as the model is a JSON value of its own (a string): it never validates against the hash of the
+	// object or array whose text it holds, and where it hashes at all it hashes as the string
+	for i, v := range vs {
+		if i%5 != 0 {
+			continue
+		}
+		v := v
+		text := string(v.canon)
+		for ci, code := range codes {
+			code := code
+			id := fmt.Sprintf("string-model/%d/%d", i, code)
+			objHash := hashes[i][ci]
+			r.Case(id, func() *core.Fail {
+				det := map[string]any{"string_model": text, "code": code}
+				if err := hashing.IsValidModelMultihash(text, objHash); err == nil {
+					return &core.Fail{Key: "string-model-validates-as-the-document-it-spells", What: fmt.Sprintf("the string %q validates against the hash of the JSON value whose text it holds", text), Detail: det}
+				}
+				if h, err := hashing.CalculateModelMultihash(text, code); err == nil && h == objHash {
+					return &core.Fail{Key: "string-model-hashes-as-the-document-it-spells", What: fmt.Sprintf("the string %q hashes to the hash of the JSON value whose text it holds", text), Detail: det}
+				}
+				return nil
+			})
+		}
+	}
+	r.Class("string-models")
 	// (iii) prefix agreement
 	subsets := [][]uint{}
 	all := []uint{17, 18, 19, 22}
